@@ -1118,12 +1118,12 @@ package anytype
 //@ extern strconv.ParseFloat pure
 //@   assigns  nothing
 //@   panics_iff false
-//@   ensures  true
+//@   ensures  (result1 == nil) == pfOK(s) && (result1 == nil ==> same(result0, pfVal(s)))
 
 //@ extern strconv.ParseBool pure
 //@   assigns  nothing
 //@   panics_iff false
-//@   ensures  true
+//@   ensures  (result1 == nil) == pbOK(str) && (result1 == nil ==> result0 == pbVal(str))
 
 //@ func unquote trusted [C03]
 //@   assigns  nothing
@@ -1135,6 +1135,12 @@ package anytype
 //@   panics_iff false
 //@   ensures  exclusive: result1 == nil ==> okArg(result0) && supp(result0) && (isVNil(result0) || isVInt(result0) || isVFloat(result0) || isVBool(result0))
 //@   ensures  error-cites-line: result1 != nil ==> isVErr(result1) && errLine(result1) == line [C20]
+//@   ensures  int-roundtrip: forall i int :: {itoa(i)} inInt(i) && field == itoa(i) ==> result1 == nil && result0 == VInt(i) [C01 C03]
+//@   ensures  float-roundtrip-e: forall f f64 :: {ffmtE(f)} field == ffmtE(f) ==> result1 == nil && result0 == VFloat(f) [C01 C03]
+//@   ensures  float-roundtrip-f: forall f f64 :: {ffmtF(f)} hasDot(ffmtF(f)) && field == ffmtF(f) ==> result1 == nil && result0 == VFloat(f) [C01 C03]
+//@   ensures  float-roundtrip-dot0: forall f f64 :: {app(ffmtF(f), ".0")} !hasDot(ffmtF(f)) && field == app(ffmtF(f), ".0") ==> result1 == nil && result0 == VFloat(f) [C01 C03]
+//@   ensures  bool-roundtrip: forall b bool :: {fmtBool(b)} field == fmtBool(b) && field != "null" ==> result1 == nil && result0 == VBool(b) [C01 C03]
+//@   ensures  null-roundtrip: field == "null" ==> result1 == nil && result0 == nil [C01 C03]
 
 //@ template parse-machine(FNAME, REFOF, CLOSECH, ISKIND, CVAR)
 //@ func FNAME [C04 C20]
